@@ -25,7 +25,7 @@ from vmc.runner import lcg
 ID = "C07"
 LEVEL = "model_checking"
 RULE = (
-    "state = event history of one beacon session; events = {check-in answered with no/small/1KB task, callback by the "
+    "state = event history of one beacon session (x the client's choice of check-in URI); events = {check-in answered with no/small/1KB task, callback by the "
     "library client, callback with 2 and 3 packets by the reference beacon, unrelated request (wrong verb / wrong "
     "URI), related request under a longer URI with the same prefix}; every history up to the depth bound (starting "
     "with a check-in) x every configuration (default + every single deviation of metadata/id/output/server-output "
@@ -41,7 +41,7 @@ ASSUMPTIONS = [
 ]
 BOUNDS = {"quick": {"depth_default": 4, "depth_dev": 3}, "thorough": {"depth_default": 5, "depth_dev": 4}}
 
-EVENTS = ("C0", "C1", "C2", "P1", "P2", "P3", "Uverb", "Uuri", "Rprefix")
+EVENTS = ("C0", "C1", "C2", "P1", "P1e", "P2", "P3", "Uverb", "Uuri", "Rprefix")
 VARIANTS = ("rsa", "aes_rand", "aes_rand+rsa", "aes+hmac", "aes-noverify")
 
 GET_PROGS = {
@@ -84,6 +84,10 @@ def config_menu():
     m += [(f"post:{k}", {"post": v}) for k, v in POST_PROGS.items() if k != "default"]
     m += [(f"recover:{k}", {"recover": v}) for k, v in RECOVER_PROGS.items() if k != "default"]
     m += [(f"other:{k}", v) for k, v in OTHER.items()]
+    # two cooperating settings: uri-append data behind URIs that are prefixes of one another, in both list orders
+    m.append(("combo:uri-append+prefix-uris", {"get": GET_PROGS["b64url-uri"], "domains": b"h.example,/api,h.example,/api/v2"}))
+    m.append(("combo:uri-append+prefix-uris-rev", {"get": GET_PROGS["b64url-uri"], "domains": b"h.example,/api/v2,h.example,/api"}))
+    m.append(("combo:post-uri-append+submit-prefix", {"post": POST_PROGS["netbios-uri/b64-body"], "domains": b"h.example,/s", "submit_uri": b"/s/ubmit", "verb_get": b"GET", "verb_post": b"POST"}))
     return m
 
 
@@ -124,10 +128,11 @@ def ref_prog(steps, b0):
 class Session:
     """One execution: real client <-> reference server, wire log, ground-truth packet log."""
 
-    def __init__(self, cfg_kw, seed):
+    def __init__(self, cfg_kw, seed, uri_choice=0):
         from dissect.cobaltstrike import beacon
 
         self.seed = seed
+        self.uri_choice = uri_choice
         self.kw = dict(cfg_kw)
         self.priv = K.key(1024, seed % 2)
         self.block = RC.http_block(key_which=seed % 2, **cfg_kw)
@@ -223,7 +228,7 @@ class Session:
         stream = b""
         for i in range(npackets):
             self.counter += 1
-            data = bytes(lcg((7, 16, 40)[i % 3], self.seed + self.counter))
+            data = bytes(lcg((7, 16, 40, 0, 3)[(i + npackets + len(self.wire)) % 5], self.seed + self.counter))
             typ = (0, 30, 32)[i % 3]
             plain = struct.pack(">III", self.counter, len(data), typ) + data
             ct, sig = RA.encrypt_packet(plain, self.keys[0], self.keys[1])
@@ -246,6 +251,10 @@ class Session:
         lc.httpx.request = self.fake_request
         self.client = lc.HttpBeaconClient()
         self.client.run(self.cfg, dry_run=True, beacon_id=0x1234, pid=4321, user="user", computer="WIN-PC", process="p.exe", internal_ip="10.0.0.7", arch="x64")
+        # the client's random.choice of its check-in URI is an environment answer: enumerate it
+        uris = self.client.bconfig.uris
+        self.client.get_uri = uris[self.uri_choice % len(uris)]
+        self.client.task_url = self.client.base_url + self.client.get_uri
 
     def stop(self):
         from dissect.cobaltstrike import client as lc
@@ -262,6 +271,14 @@ class Session:
             got = None if t is None else (t.command.value, bytes(t.data))
             if got != expected:
                 self.interop_errors.append(f"get_task() returned {got!r:.80}, the server sent {expected!r:.80}")
+        elif ev == "P1e":
+            from dissect.cobaltstrike.client import BeaconCallback
+
+            data = b"" if len(self.wire) % 2 else b"ok"
+            self.client.send_callback(BeaconCallback.CALLBACK_DEAD, data)
+            last = next((w for w in reversed(self.wire) if w[2] == "client-request"), None)
+            if not self.interop_errors and (last is None or last[1] != [("callback", self.client.counter, 26, data)]):
+                self.interop_errors.append(f"send_callback: the reference server decoded {last[1] if last else None!r:.120}, the client was asked to send counter={self.client.counter} type=26 data={data!r}")
         elif ev == "P1":
             from dissect.cobaltstrike.client import BeaconCallback
 
@@ -350,9 +367,9 @@ def _pj(pk):
     return [[x.hex()[:48] if isinstance(x, bytes) else x for x in p] for p in pk]
 
 
-def run_history(cfg_kw, hist, seed):
+def run_history(cfg_kw, hist, seed, uri_choice=0):
     """-> (bad or None, session)"""
-    s = Session(cfg_kw, seed)
+    s = Session(cfg_kw, seed, uri_choice)
     try:
         s.start()
         for ev in hist:
@@ -379,13 +396,15 @@ def chunk_hist(chunk, acc):
     rests = [()] if chunk["second"] is None else list(sequences(EVENTS, depth - 2))
     for rest in rests:
         hist = prefix + rest
-        acc.states += 1
-        acc.transitions += len(hist)
-        bad, s = run_history(kw, hist, acc.seed)
-        acc.case(hist, nontrivial=any(e not in ("C0", "Uverb", "Uuri") for e in hist), outcome=bad[0] if bad else len(s.wire))
-        acc.count("wire_messages_decoded", len(s.wire) * len(VARIANTS))
-        if bad:
-            acc.fail(bad[0], {"kind": "history", "config": chunk["config"], "history": list(hist), "seed": acc.seed}, bad[1], bad[2])
+        nuris = len(dict.fromkeys(kw.get("domains", b"a,/ptj,b,/load").split(b",")[1::2]))
+        for uc in range(nuris):
+            acc.states += 1
+            acc.transitions += len(hist)
+            bad, s = run_history(kw, hist, acc.seed, uc)
+            acc.case((hist, uc), nontrivial=any(e not in ("C0", "Uverb", "Uuri") for e in hist), outcome=bad[0] if bad else len(s.wire))
+            acc.count("wire_messages_decoded", len(s.wire) * len(VARIANTS))
+            if bad:
+                acc.fail(bad[0], {"kind": "history", "config": chunk["config"], "history": list(hist), "seed": acc.seed, "uri_choice": uc}, bad[1], bad[2])
     acc.sample({"config": chunk["config"], "history": list(prefix) + ["P2", "Uuri"], "key_variants": list(VARIANTS)})
 
 
@@ -414,5 +433,5 @@ def replay(case):
     else:
         kw = dict(menu[case["a"]])
         kw.update(menu[case["b"]])
-    bad, s = run_history(kw, tuple(case["history"]), case["seed"])
+    bad, s = run_history(kw, tuple(case["history"]), case["seed"], case.get("uri_choice", 0))
     return {"ok": bad is None, "expected": bad[1] if bad else None, "observed": {"signature": bad[0], "detail": bad[2]} if bad else None}
